@@ -343,6 +343,8 @@ VALUES = [("int", "5", "(VInt 5)"), ("str", '"s"', '(VStr "s")'), ("arr", "[1]",
           ("null", "null", "VNull"), ("bool", "true", "(VBool true)"), ("float", "1.5", "VFloat"),
           ("assoc", '["k" => 1]', "VArr"),                 # a string-keyed array is an array
           ("S", "new S()", '(VObj "S")')]                   # an object with __toString is not a string
+# property types of the accessor probes (None = untyped property)
+ACC_PTYPES = [None, "?int", "int|string", "?A", "A", "?I", "int|string|array"]
 # boundary sites: (label, Coq boundary)
 # further boundary sites (audit follow-up): typed static property, variadic / by-reference / closure parameters,
 # closure and static-method returns
@@ -393,6 +395,31 @@ def type_script_and_probes(only=None):
                 for rep in (0, 1):
                     L.append('try { %s echo "A\\n"; } catch (Throwable $e) { echo "D\\n"; }' % forms[label])
                     probes.append({"site": label, "b": bc, "ty": tn, "tyc": tc, "val": vn, "valc": vc})
+    # ---- the return boundary when the returned expression is a typed PROPERTY (one-line accessors): property type
+    # x return type x stored value; the value is first stored through the property's own boundary (a rejected store
+    # prints S: the cell does not apply), then returned through `: <return type>` — by `return $this->p;`,
+    # by `return $this->p ?? $this->p;` and by a static accessor `return self::$sp;`.  What the return boundary
+    # must accept is the denotation of the RETURN type, whatever the property's type let in.
+    for pi, ptn in enumerate(ACC_PTYPES):
+        for ti, (tn, tc) in enumerate(TYPES):
+            pd = (ptn + " ") if ptn else ""
+            L.append("class G%d_%d { public %s$p; public static %s$sp; public function g(): %s { return $this->p; } "
+                     "public function gq(): %s { return $this->p ?? $this->p; } public static function gs(): %s { return self::$sp; } }"
+                     % (pi, ti, pd, pd, tn, tn, tn))
+    for pi, ptn in enumerate(ACC_PTYPES):
+        for ti, (tn, tc) in enumerate(TYPES):
+            for vn, vsrc, vc in VALUES:
+                vias = [("accessor", "return:method", "$k = new G%d_%d(); try { $k->p = %s; } catch (Throwable $e) { $k = null; }" % (pi, ti, vsrc), "$k->g();"),
+                        ("accessor-coalesce", "return:method", "$k = new G%d_%d(); try { $k->p = %s; } catch (Throwable $e) { $k = null; }" % (pi, ti, vsrc), "$k->gq();")]
+                if pi < 2:
+                    vias.append(("static-accessor", "return:static-method", "$k = 1; G%d_%d::$sp = %s;" % (pi, ti, vsrc), "G%d_%d::gs();" % (pi, ti)))
+                for via, label, store, call in vias:
+                    if only and only != (label, tn, vn):
+                        continue
+                    for rep in (0, 1):
+                        L.append('%s if ($k === null) { echo "S\\n"; } else { try { %s echo "A\\n"; } catch (Throwable $e) { echo "D\\n"; } }' % (store, call))
+                        probes.append({"site": label, "b": "BReturnMethod", "ty": tn, "tyc": tc, "val": vn, "valc": vc,
+                                       "via": via, "prop_type": ptn or "untyped"})
     return "\n".join(L) + "\n", probes
 
 
@@ -626,6 +653,11 @@ def main(ck):
     if o["outcome"] != "ok" or len(lines) != len(tprobes):
         ck.violation("impl-error:types:%s" % o["outcome"], {"impl_out": o["out"][-1500:], "detail": o.get("detail"), "lines": len(lines), "probes": len(tprobes)})
     else:
+        # accessor probes whose store was rejected by the property's own type do not apply
+        napplic = sum(1 for l in lines if l == "S")
+        pairs = [(p, l) for p, l in zip(tprobes, lines) if l != "S"]
+        tprobes, lines = [p for p, _ in pairs], [l for _, l in pairs]
+        ck.cov["accessor_probes"] = {"applicable": sum(1 for p in tprobes if p.get("via")), "store_rejected": napplic}
         terms = ['{| t_b := %s; t_ty := %s; t_val := %s; t_accepted := %s |}' % (p["b"], p["tyc"], p["valc"], "true" if l == "A" else "false")
                  for p, l in zip(tprobes, lines)]
         if ck.replay:
@@ -636,6 +668,8 @@ def main(ck):
         for j, cls in sorted(bad.items()):
             p = tprobes[j]
             key = "type:%s:%s:%s" % (p["site"], p["val"], p["ty"])
+            if p.get("via"):
+                key += ":via=%s:prop=%s" % (p["via"], p["prop_type"])
             rep = {"probe": p, "impl_out": lines[j], "clauses": cls}
             if 2 in cls:
                 ck.violation(key, dict(rep, clause="accepts exactly the values of the type"))
@@ -644,7 +678,8 @@ def main(ck):
                 if 2 not in cls:
                     ck.violation("tie:" + key, dict(rep, clause="model vs implementation (tie)"))
         for p in tprobes:
-            dist[p["site"]] = dist.get(p["site"], 0) + 1
+            sk = p["site"] + (":" + p["via"] if p.get("via") else "")
+            dist[sk] = dist.get(sk, 0) + 1
 
     if not ck.replay:
         ck.samples = [{"shape": hs[0].classes, "probe": {x: vis[0][1][5][x] for x in ("site", "path", "c", "m")}}, tprobes[17]]
@@ -655,5 +690,6 @@ def main(ck):
                    "seeded class names), members (instance/static property, instance/static method) x 3 modifiers declared at two levels; sites: "
                    "top level, top-level closure, and code written in every class l running on an object of every class r <= l (plain and inside "
                    "a closure); every object class; every applicable path; stores read back through a getter of the declaring class. Types: 11 "
-                   "declared types x 10 value kinds x 10 boundary sites. Instantiation: seeded hierarchies (2-5 classes, abstract flags, abstract/concrete methods f,g,h,k, 0-3 interfaces with extends and methods), `new X()` for every class and interface. evaluations = probes",
+                   "declared types x 12 value kinds x 16 boundary sites, plus the return boundary fed from a typed PROPERTY: 7 property types (incl. untyped) x 11 return types x 12 values "
+                   "through `return $this->p;`, `return $this->p ?? $this->p;` and (2 property types) a static accessor, applicable when the property's own type lets the value in. Instantiation: seeded hierarchies (2-5 classes, abstract flags, abstract/concrete methods f,g,h,k, 0-3 interfaces with extends and methods), `new X()` for every class and interface. evaluations = probes",
               traces=total)
